@@ -17,7 +17,7 @@ RULE = ('generated runnable module trees (conv/linear/residual blocks, BatchNorm
         'param dtype {float32,float64,bfloat16}, factor dtypes, inverse dtypes incl. float16/bfloat16 (damping >= 1e-2), both methods, train/eval sequences of 2-8 events; '
         'non-trivial: >=1 unregistered trainable parameter with a gradient and >=1 registered layer; distinct = hash(model description, frozen/skip choice, config)')
 ASSUMPTIONS = ['default (contiguous) memory format only', 'the twin-model comparison is restricted to float32/float64 parameters (torch bfloat16 CPU kernels were seen to be non-deterministic)']
-REQUIRED = ['step_snapshots', 'unregistered_grad_checks', 'eval_state_checks', 'twin_checks']
+REQUIRED = ['shadow_checks', 'step_snapshots', 'unregistered_grad_checks', 'eval_state_checks', 'twin_checks']
 
 
 def meta(t):
@@ -76,6 +76,33 @@ def run_case(rng, res, idx):
     lgen = torch.Generator().manual_seed(1)
     lgen2 = torch.Generator().manual_seed(1)
     saw_unreg_grad = False
+    # shadow: an identical model with its own K-FAC preconditioner that sees the train-mode passes only. If eval-mode passes
+    # leave ALL K-FAC state unchanged (also state that is not part of state_dict), both stay identical for ever.
+    shadow = p_sh = None
+    if twin is not None and rng.random() < 0.5:
+        shadow = copy.deepcopy(twin)
+        with warnings.catch_warnings():
+            warnings.simplefilter('ignore')
+            p_sh = KFACPreconditioner(shadow, skip_layers=skips, **kh.precond_kwargs(cfg))
+        lgen3 = torch.Generator().manual_seed(1)
+    eqtol = 1e-9 if cfg['pdt'] == 'float64' else 1e-4
+
+    def eval_pass(xe):
+        # forward/backward in eval mode that leaves the accumulated .grad of the surrounding window alone
+        for mdl, lg in ((model, lgen), (twin, lgen2)):
+            if mdl is None:
+                continue
+            keep = [None if q.grad is None else q.grad.clone() for q in mdl.parameters()]
+            mdl.eval()
+            o = mdl(xe)
+            gen.loss_fn(cfg['loss'], o, lg).backward()
+            mdl.train()
+            for q, k_ in zip(mdl.parameters(), keep):
+                q.grad = k_
+        if shadow is not None:
+            gen.loss_fn(cfg['loss'], torch.zeros_like(o), lgen3)   # keep the loss generators in step
+        res.count('eval_passes_inside_accumulation_windows')
+
     nev = rng.randint(2, 8)
     for ei in range(nev):
         evk = 'eval' if (ei > 0 and rng.random() < 0.3) else 'train'
@@ -92,6 +119,8 @@ def run_case(rng, res, idx):
                 twin.eval()
                 gen.loss_fn(cfg['loss'], twin(x), lgen2).backward()
                 twin.train()
+            if shadow is not None:
+                gen.loss_fn(cfg['loss'], torch.zeros_like(out), lgen3)
             res.count('eval_state_checks')
             sd1 = p.state_dict()
             same = st0 == p.steps and mem0 == dict(p.memory_usage())
@@ -105,9 +134,15 @@ def run_case(rng, res, idx):
         model.zero_grad()
         if twin is not None:
             twin.zero_grad()
+        if shadow is not None:
+            shadow.zero_grad()
         for mb in range(cfg['acc']):
             if mb:
                 x = gen.make_batch(dgen, rng.randint(2, 6), in_shape, pdt)
+                if rng.random() < 0.35:
+                    eval_pass(gen.make_batch(dgen, rng.randint(1, 4), in_shape, pdt))
+            if shadow is not None:
+                (gen.loss_fn(cfg['loss'], shadow(x), lgen3) * S).backward()
             if twin is not None:
                 tout = twin(x)
                 (gen.loss_fn(cfg['loss'], tout, lgen2) * S).backward()
@@ -138,6 +173,28 @@ def run_case(rng, res, idx):
         snapG = {n: (None if q.grad is None else (q.grad.detach().clone(), meta(q.grad))) for n, q in model.named_parameters()}
         kh.step(p, cfg)
         res.count('step_snapshots')
+        if shadow is not None:
+            if S != 1.0:
+                with torch.no_grad():
+                    for q in shadow.parameters():
+                        if q.grad is not None:
+                            q.grad /= S
+            kh.step(p_sh, cfg)
+            res.count('shadow_checks')
+            sda, sdb = p.state_dict(), p_sh.state_dict()
+            for n in sda['layers']:
+                for f in ('A', 'G'):
+                    a, b = sda['layers'][n][f], sdb['layers'][n][f]
+                    if (a is None) != (b is None) or (a is not None and not kh.rel_err(a.double(), b.double()) <= eqtol):
+                        return res.violation(f'event {ei}: factor {f} of layer {n} differs from that of an identical K-FAC model that saw the same train-mode passes but no '
+                                             f'eval-mode passes (eval passes so far must have changed hidden K-FAC state)', case)
+            if p.steps != p_sh.steps:
+                return res.violation(f'event {ei}: step count {p.steps} differs from the shadow without eval passes ({p_sh.steps})', case)
+            if not kh.low_precision(cfg):
+                for (n, a), (_, b) in zip(model.named_parameters(), shadow.named_parameters()):
+                    if a.grad is not None and not kh.rel_err(a.grad.double(), b.grad.double()) <= max(eqtol, 1e-6):
+                        return res.violation(f'event {ei}: preconditioned gradient of {n} differs from that of an identical K-FAC model that saw no eval-mode passes '
+                                             f'(rel {kh.rel_err(a.grad.double(), b.grad.double()):.3e})', case)
         for n, q in model.named_parameters():
             v, m = snapP[n]
             if meta(q) != m or not torch.equal(q.detach(), v):
